@@ -175,7 +175,9 @@ def _step(b: Builder, h: str, profile, H: int, force_mapped: bool = False) -> st
     mapped = ["linear_pair", "gelu", "silu", "softmax", "dropout", "layer_norm", "matmul", "sdpa", "linear_one", "gate", "gate"]
     if "conv1d" in forms:
         mapped.append("conv1d")
-    unmapped = ["tanh", "relu", "mul_scalar", "neg", "reshape_roundtrip", "slice_cat", "add_scalar", "mul_tensor", "plain_add", "self_add", "sibling_add"]
+    unmapped = ["tanh", "relu", "mul_scalar", "neg", "reshape_roundtrip", "slice_cat", "add_scalar", "mul_tensor", "plain_add", "self_add", "sibling_add", "self_mul"]
+    if rng.random() < 0.12:
+        mapped = mapped + ["sdpa_self"]
     if profile.get("extras"):
         unmapped += ["rotate_half", "where_mask", "gather_argmax", "stack_mean", "where_mask2", "argmax_kw"]
     if "inplace_fn" in forms:
@@ -270,6 +272,10 @@ def _step(b: Builder, h: str, profile, H: int, force_mapped: bool = False) -> st
     if choice == "plain_add":
         w = b.param([D]) if rng.random() < 0.5 else b.param([B, S, D])
         return b.op("add", [h, w], [B, S, D])
+    if choice == "self_mul":
+        return b.op("mul", [h, h], [B, S, D])  # x * x: ONE tensor in two argument slots of the same consumer
+    if choice == "sdpa_self":
+        return b.op("sdpa", [h, h, h], [B, S, D])  # self-attention without projections: the same tensor as query, key and value
     if choice == "self_add":
         return b.op("add", [h, h], [B, S, D])  # x + x: neither operand is computed from the other -> a plain add
     if choice == "sibling_add":
